@@ -35,6 +35,9 @@ enum Call {
     TransferAdminX,
     /// update_delay(7), scheduled with predecessor = the (Delay5, salt 1) operation
     Delay7AfterDelay5,
+    /// grant_role(E, "executor"): turns an open-execution controller into one with executors
+    /// (seed 2 only; never part of the explored alphabet)
+    GrantExecutorE,
 }
 
 const QUICK_CALLS: [Call; 5] = [Call::Delay0, Call::Delay5, Call::GrantProposerX, Call::Renounce, Call::Delay7AfterDelay5];
@@ -169,6 +172,7 @@ impl Inst {
             Call::Delay5 => ("update_delay", (5u32,).into_val(e)),
             Call::Delay7AfterDelay5 => ("update_delay", (7u32,).into_val(e)),
             Call::GrantProposerX => ("grant_role", (self.x.clone(), Symbol::new(e, "proposer"), self.c.clone()).into_val(e)),
+            Call::GrantExecutorE => ("grant_role", (self.ex.clone(), Symbol::new(e, "executor"), self.c.clone()).into_val(e)),
             Call::RevokeCancellerP => ("revoke_role", (self.p.clone(), Symbol::new(e, "canceller"), self.c.clone()).into_val(e)),
             Call::Renounce => ("renounce_admin", SVec::new(e)),
             Call::SetRoleAdmin => ("set_role_admin", (Symbol::new(e, "proposer"), Symbol::new(e, "executor")).into_val(e)),
@@ -201,6 +205,7 @@ impl Tlc {
         let mut v: Vec<OpId> = self.calls().iter().map(|c| OpId { call: *c, salt: 1, foreign: false }).collect();
         v.push(OpId { call: Call::Delay0, salt: 2, foreign: false });
         v.push(OpId { call: Call::Delay0, salt: 1, foreign: true });
+        v.push(OpId { call: Call::GrantExecutorE, salt: 1, foreign: false });
         v
     }
 
@@ -374,10 +379,20 @@ impl World for Tlc {
     }
 
     fn seeds(&self) -> usize {
-        2
+        // seed 2 only makes sense for a controller constructed without executors
+        if self.with_executor {
+            2
+        } else {
+            3
+        }
     }
     fn seed_name(&self, s: usize) -> String {
-        ["fresh controller", "after the timelocked grant of the proposer role to X (X proposes but cannot cancel)"][s].into()
+        [
+            "fresh controller",
+            "after the timelocked grant of the proposer role to X (X proposes but cannot cancel)",
+            "constructed without executors, then the executor role was granted to E through the timelock",
+        ][s]
+        .into()
     }
 
     fn fresh(&self, seed: usize) -> (Inst, Model) {
@@ -414,6 +429,16 @@ impl World for Tlc {
                 Op::Schedule { op: g, delay: 2, by: Who::P },
                 Op::Advance(2),
                 Op::Admin { call: Call::GrantProposerX, sig: Sig::List(vec![Meta { salt: 1, right_pred: true, executor: ex }]), executor_signs: ex },
+            ] {
+                assert!(self.exec(&i, &op), "seed step {op:?} refused");
+            }
+        }
+        if seed == 2 {
+            let g = OpId { call: Call::GrantExecutorE, salt: 1, foreign: false };
+            for op in [
+                Op::Schedule { op: g, delay: 2, by: Who::P },
+                Op::Advance(2),
+                Op::Admin { call: Call::GrantExecutorE, sig: Sig::List(vec![Meta { salt: 1, right_pred: true, executor: None }]), executor_signs: None },
             ] {
                 assert!(self.exec(&i, &op), "seed step {op:?} refused");
             }
@@ -638,6 +663,12 @@ impl World for Tlc {
                         if !x.proposers.contains(&Who::X) {
                             x.proposers.push(Who::X);
                             x.proposers.sort();
+                        }
+                    }
+                    Call::GrantExecutorE => {
+                        if !x.executors.contains(&Who::E) {
+                            x.executors.push(Who::E);
+                            x.executors.sort();
                         }
                     }
                     Call::RevokeCancellerP => x.cancellers.retain(|w| *w != Who::P),
